@@ -8,7 +8,7 @@ ROOT = os.path.dirname(os.path.dirname(os.path.abspath(__file__)))
 CHECKS = {
     "C16": ("model_checking",
             "explicit-state BFS over VarRemover histories with merging on the full implementation state + bounded-exhaustive enumeration of op sequences, operand bit patterns and byte strings",
-            "Every op variant at every operand-width boundary, every sequence over a per-variant menu, every 32-bit operand pattern (thorough; boundary windows quick), every byte string up to 2 (3) bytes and every truncated payload are run through the real serialize/deserialize; VarRemover is driven as a state machine over a 29-op alphabet (every history up to length 5 (6) without merging, BFS to depth 7 (9) with merging on the drained dvi::Values state) and compared after every history with an independent position tracker. Coverage statement, not a sample.",
+            "Every op variant at every operand-width boundary, every sequence over a per-variant menu, every 32-bit operand pattern (thorough; boundary windows quick), every byte string up to 2 (3) bytes and every truncated payload are run through the real serialize/deserialize; VarRemover is driven as a state machine over a 29-op alphabet (every history up to length 5 (6) without merging, BFS to depth 7 (8) with merging on the drained dvi::Values state) and compared after every history with an independent position tracker. Coverage statement, not a sample.",
             "Trusted: the 120-line position tracker reftex::dvipos (bound to the crate's own dvi::Values on every history); DVI grammar restrictions (post_post last, strings <= 255 bytes); positions stay inside i32.",
             "3 C16"),
 }
